@@ -1700,6 +1700,19 @@ pub fn scenario(case: &Case, slot: &Arc<StdMutex<Option<Verdict>>>) {
         s.view = View::Stopped(0);
         s.apply_op(&Op::SetBreakpoints(case.initial_bps.clone()))?;
         s.v.ops_done = 0;
+        // an impatient front end: one session in five sends `continue` (and sometimes asks for the threads) while the
+        // machine is still launching; the adapter ignores it, and nothing of it may survive into the run
+        match rng::derive(case.seed, "c19.early_continue", 0) % 10 {
+            0 => {
+                s.dap.request("continue", json!({"threadId": 1}))?;
+            }
+            1 => {
+                s.dap.request("threads", Value::Null)?;
+                s.dap.request("continue", json!({"threadId": 1}))?;
+                s.dap.request("continue", json!({"threadId": 1}))?;
+            }
+            _ => {}
+        }
         s.dap.request("configurationDone", Value::Null)?;
         // launch: free run from before the first instruction (instruction #0 may itself be a breakpoint)
         s.begin_free_run(-1);
